@@ -10,6 +10,7 @@
     attributes of the nested class, every advertised nested keyword is accepted and reaches the behaviour with the
     (symbolic) value given, unadvertised names raise TypeError before anything is changed."""
 import inspect
+from typing import List
 
 from spec_classes import MISSING, Attr, spec_class
 from spec_classes.utils.method_builder import MethodBuilder
@@ -245,6 +246,35 @@ def make_overflow():
 
         r = RSub(x=v)
         check(r.x is v or r.x == v, "every advertised keyword is accepted and reaches the underlying behaviour with the value given (re-declared inherited attribute)", "C17/ctor/redeclared-keyword-dropped", lambda: f"RSub(x={v!r}).x == {r.x!r}")
+
+        @spec_class(bootstrap=True)
+        class HP:
+            a: int = 0
+            hidden: int = Attr(default=1, init=False)
+
+        @spec_class(bootstrap=True)
+        class HS(HP):  # overrides only the DEFAULT of the inherited init=False attribute: it stays init=False
+            hidden = 5
+
+        @spec_class(bootstrap=True)
+        class Holder:
+            h: HS
+            hs: List[HS] = []
+
+        def kwnames(fn):
+            return sorted(p.name for p in inspect.signature(fn).parameters.values() if p.kind is p.KEYWORD_ONLY and not p.name.startswith("_"))
+
+        check(kwnames(HS.__init__) == ["a"], "constructor keywords correspond one-to-one to the init-enabled attributes (init=False attribute inherited, default overridden)", "C17/inherited-init-false/ctor-keywords", lambda: f"{kwnames(HS.__init__)!r}")
+        for mname in ("with_h", "update_h", "with_h_item" if hasattr(Holder, "with_h_item") else "with_hs_item"):
+            check(kwnames(getattr(Holder, mname)) == ["a"], "the nested-attribute keywords correspond one-to-one to the init-enabled attributes of the nested spec class", f"C17/inherited-init-false/{mname}-keywords", lambda: f"{mname}: {kwnames(getattr(Holder, mname))!r}")
+        try:
+            Holder().with_h(hidden=v)
+            accepted = True
+        except TypeError:
+            accepted = False
+        check(not accepted, "any keyword outside the signature raises TypeError", "C17/inherited-init-false/unadvertised-accepted")
+        hv = Holder().with_h(a=v).h
+        check((hv.a is v or hv.a == v) and hv.hidden == 5, "every advertised keyword is accepted and reaches the behaviour", "C17/inherited-init-false/value", lambda: f"{hv!r}")
         return "ok"
 
     return h
